@@ -13,6 +13,7 @@ verus! {
 //@@ INCLUDE lib/repr_stubs.rs
 //@@ INCLUDE lib/div_word_stubs.rs
 //@@ INCLUDE lib/div_dword_stubs.rs
+//@@ INCLUDE lib/div_post_spec.rs
 //@@ INCLUDE lib/div_ops_stubs.rs
 //@@ INCLUDE lib/div_const_stubs.rs
 //@@ INCLUDE lib/div_dword_bits_@BITS@.rs
